@@ -30,8 +30,8 @@ ASSUMPTIONS = [
     "configuration is not mutated concurrently (as the property states)",
 ]
 NSHARDS = {"quick": 16, "thorough": 32}
-TIMEOUT = {"quick": 900, "thorough": 10000}
-WATCHDOG = {"quick": 850, "thorough": 9900}
+TIMEOUT = {"quick": 900, "thorough": 14000}
+WATCHDOG = {"quick": 850, "thorough": 13900}
 STALL_S = 200
 
 DOCS = [
@@ -590,8 +590,11 @@ def run(ctx):
                     fine_ks = [k for j, (k, c) in enumerate(fine_ks) if per_code[c] <= 120 or j % 8 == ctx.seed % 8]
                 else:
                     fine_ks = [k for k, _ in fine_ks]
+                heavy = calls[0][1] == "M" or calls[1][1] == "M"
+                if heavy and not ctx.quick:
+                    spread = spread[1::3]   # (these calls are ten times longer than the others)
                 ks = [(k1, k2) for k1 in fine_ks for k2 in spread]
-                for _ in range(60 if ctx.quick else 1500):
+                for _ in range(60 if ctx.quick else (300 if heavy else 1500)):
                     ks.append((rng.randint(1, ta), rng.randint(1, tb2)))
                 for (k1, k2) in ks:
                     idx += 1
